@@ -441,6 +441,28 @@ def _(c):
     c.pre(pre)
     c.ensures("C10.per-print-state-equals-fresh", lambda f: per_print_clean(f.self, fresh_state(f, f.self._logger)),
               props=("C10",))
+    def documented_initial_state(f):
+        """Base case of every per-step argument (and the meaning of 'a freshly initialised plugin'): exclusion enabled, no
+        episode open, nothing owed or deferred, position unknown until homed (E at 0), millimetres, absolute coordinates,
+        no offsets.  Stated explicitly -- the comparison with a fresh object alone would accept any default the
+        constructor and resetState share."""
+        st = f.self
+        pos = st.position
+        conds = [st._exclusionEnabled, Not(st.excluding), is_none(st.excludeStartTime) if st.excludeStartTime is not None else True,
+                 eq(st.numExcludedCommands, 0), eq(st.numCommands, 0), st.lastRetraction is None, st.lastPosition is None,
+                 eq(st.feedRate, 0), eq(st.feedRateUnitMultiplier, 1)]
+        pend = st.pendingCommands
+        conds.append(len(pend) == 0 if hasattr(pend, "__len__") and not hasattr(pend, "view") else eq(pend.view().n, 0))
+        for name in ("X_AXIS", "Y_AXIS", "Z_AXIS", "E_AXIS"):
+            ax = getattr(pos, name)
+            cur = ax.current
+            if name == "E_AXIS":
+                conds.append(And(Not(is_none(cur)), eq(val(cur), 0)) if cur is not None else False)
+            else:
+                conds.append(is_none(cur) if cur is not None else True)
+            conds += [eq(ax.offset, 0), eq(ax.homeOffset, 0), ax.absoluteMode, eq(ax.unitMultiplier, 1)]
+        return And(*conds)
+    c.ensures("C10.documented-initial-state", documented_initial_state, props=("C10", "C01", "C02", "C03", "C04", "C05", "C11", "C14"))
     c.ensures("C10.config-and-regions-kept", lambda f: And(
         config_same(f.self, f.old.self),
         If(f.a.clearExcludedRegions, eq(R.rl_len(f.self.excludedRegions), 0),
